@@ -140,6 +140,33 @@ func driveAPI(input []byte, mu *sync.Mutex, evs *[][3]int, cur *int) {
 			return 0
 		})
 	}
+	// user code that stops a traversal early (Post returns false while ancestors and siblings are pending), followed by
+	// every consumer again on every block: whatever an abandoned traversal leaves behind must not reach the next call
+	for i, b := range blocks {
+		if i >= 6 {
+			break
+		}
+		b := b
+		stop := 1 + i%3
+		call(opWalk, func() int {
+			n := 0
+			commonmark.Walk(b.AsNode(), &commonmark.WalkOptions{Post: func(*commonmark.Cursor) bool { n++; return n < stop }})
+			return 0
+		})
+		r := &commonmark.HTMLRenderer{ReferenceMap: refs, FilterTag: filterPreds[1+i%4]}
+		call(opAppend, func() int {
+			var dst []byte
+			for j := len(blocks) - 1; j >= 0; j-- {
+				dst = r.AppendBlock(dst[:0], blocks[j])
+			}
+			return 0
+		})
+		call(opFormat, func() int { return errCode(formatBlocks(io.Discard, blocks[len(blocks)-1:])) })
+		call(opWalk, func() int {
+			commonmark.Walk(blocks[len(blocks)-1].AsNode(), &commonmark.WalkOptions{Pre: func(*commonmark.Cursor) bool { return true }})
+			return 0
+		})
+	}
 }
 
 func runAPI(input []byte, watchdog time.Duration) *apiTrace {
